@@ -6,7 +6,7 @@ from cloudsync.notification import SourceEnum
 import cloudsync.exceptions as ex
 
 
-@lemma(props=["C06", "C07"], configs="sides", raises=["Exception"],
+@lemma(props=["C06", "C07", "C14"], configs="sides", raises=["Exception"],
        stubs={"cloudsync.event:EventManager._do_first_init": {"results": ["None"], "havoc": False},
               "cloudsync.event:EventManager._do_walk_if_needed": {"results": ["None"], "havoc": False},
               "cloudsync.event:EventManager._process_event": {"results": ["None"], "havoc": False}})
@@ -120,7 +120,7 @@ def event_manager_fault_classification(w: World):
             check(em.need_walk is True, "a rejected cursor forces a full walk")
 
 
-@lemma(props=["C14"], configs="update_cases", raises=["AssertionError"],
+@lemma(props=["C14", "C06", "C07"], configs="update_cases", raises=["AssertionError"],
        inline=["cloudsync.sync.state:SyncState.update"])
 def event_update_records_the_event(w: World):
     """L14.4: applying a provider event (no prior id) to the state: an entry already known under the event's id is
@@ -172,7 +172,7 @@ def event_update_records_the_event(w: World):
         check(e[side].exists == TRASHED or (e[side].exists == CORRUPT and e[side]._saved_exists == TRASHED), "a deletion is recorded as a tombstone")
 
 
-@lemma(props=["C06"], configs="sides", raises=["Exception"])
+@lemma(props=["C06", "C07", "C14"], configs="sides", raises=["Exception"])
 def first_init_restores_or_records_the_cursor(w: World):
     """L6.4: the first intake step after a start: without a stored cursor the provider's current position is adopted and
     persisted under the cursor tag (when it has one); with a stored cursor that position is handed to the provider; if the
@@ -215,7 +215,7 @@ def first_init_restores_or_records_the_cursor(w: World):
                 check(em.need_walk == nw0, "a completed walk on record: the need is unchanged")
 
 
-@lemma(props=["C06", "C14"], configs="sides", raises=["Exception"],
+@lemma(props=["C06", "C14", "C07"], configs="sides", raises=["Exception"],
        stubs={"cloudsync.event:EventManager._process_event": {"results": ["None"], "havoc": False}})
 def walk_if_needed_records_completion_last(w: World):
     """L6.5: a full walk happens exactly when one is needed and the root id is known; every walked object is processed
@@ -243,7 +243,7 @@ def walk_if_needed_records_completion_last(w: World):
                 check(len(ups) == 0, "a stop while objects remain to be walked records nothing")
 
 
-@lemma(props=["C06"], configs="sides", raises=["Exception"])
+@lemma(props=["C06", "C07", "C14"], configs="sides", raises=["Exception"])
 def validate_root_loads_cursor_and_walk_need(w: World):
     """L6.6: the stored cursor is read from storage under the tag of this side's root exactly once (when the root is first
     validated) and becomes the position remembered; a full walk is needed exactly when there is no stored cursor or no
@@ -280,7 +280,7 @@ def validate_root_loads_cursor_and_walk_need(w: World):
         check(len(gets) == 0 and em.cursor == c0 and em.need_walk == nw0, "a half-specified root reads nothing")
 
 
-@lemma(props=["C14", "C04"], configs="sides", raises=["AssertionError"],
+@lemma(props=["C14", "C04", "C06", "C07"], configs="sides", raises=["AssertionError"],
        inline=["cloudsync.sync.state:SyncState.update"])
 def rename_event_reuses_the_prior_entry(w: World):
     """L4.5: a rename reported by a path-style provider (event with a prior id) for an object the state knows under the
@@ -309,7 +309,7 @@ def rename_event_reuses_the_prior_entry(w: World):
     check(truthy(prior[side].changed) and in_changeset(state, prior), "and it is pending")
 
 
-@lemma(props=["C14", "C06"], configs="sides", raises=["Exception"],
+@lemma(props=["C14", "C06", "C07"], configs="sides", raises=["Exception"],
        stubs={"cloudsync.event:EventManager._do_first_init": {"results": ["None"], "raises": False, "havoc": False},
               "cloudsync.event:EventManager._do_walk_if_needed": {"results": ["None"], "raises": False, "havoc": False},
               "cloudsync.event:EventManager._process_event": {"results": ["None"], "raises": False, "havoc": False},
